@@ -323,7 +323,7 @@ func document(d *descriptor) (string, *gen.Program) {
 	var extra strings.Builder
 	var inProc strings.Builder
 	if d.Deco.DataObj {
-		inProc.WriteString(`<bpmn:dataObject id="DO_1" name="do1"><bpmn:extensionElements><olive:dataObjectBody><![CDATA[{"a": "aa", "n": 3}]]></olive:dataObjectBody></bpmn:extensionElements></bpmn:dataObject>` +
+		inProc.WriteString(`<bpmn:dataObject id="DO_1" name="do1"><bpmn:extensionElements><olive:dataObjectBody><![CDATA[{"a": "a  a", "n": 3, "t": "x\t\ty ", "k  k": [1,  2]}]]></olive:dataObjectBody></bpmn:extensionElements></bpmn:dataObject>` +
 			`<bpmn:dataObjectReference id="DOR_1" name="ref1" dataObjectRef="DO_1"/>`)
 	}
 	if d.Deco.Docs {
